@@ -78,7 +78,22 @@ def main(argv=None) -> int:
                 ctx.case(rp["case"])
             rc = finish(ctx, info, write_evidence=False, **getattr(mod, "EVIDENCE", {}))
         else:
-            mod.run(ctx)
+            try:
+                mod.run(ctx)
+            except ToolFailure:
+                raise
+            except Exception as ex:
+                # An exception that escapes a check from INSIDE the library under test (innermost frame in /repo/tupimage) is not a
+                # failure of the tool: the implementation did something neither the model nor the harness provides for, i.e. the
+                # correspondence no longer checks.  It is reported as such (with whatever failing inputs were found before it).
+                tb = traceback.extract_tb(ex.__traceback__)
+                if not tb or not tb[-1].filename.startswith(str(common.REPO) + os.sep):
+                    raise
+                ctx.mismatch("the implementation raised an exception no case of the check provides for",
+                             {"where": f"{tb[-1].filename[len(str(common.REPO)) + 1:]}:{tb[-1].lineno} in {tb[-1].name}",
+                              "harness_frame": next((f"{f.filename.rsplit('/', 1)[-1]}:{f.lineno}" for f in reversed(tb) if "/harness/" in f.filename), None)},
+                             type(ex).__name__ + ": " + str(ex)[:300], "no exception")
+                ctx.notes.append("the run stopped at an unexpected exception from the implementation; the cases after it were not executed")
             rc = finish(ctx, info, **getattr(mod, "EVIDENCE", {}))
         return rc
     except ToolFailure as e:
